@@ -112,7 +112,7 @@ prop("C01", ["DivanModel.Props.C01"], BENCH_LABS,
      level_note="Trusted: Lean kernel; bench lab. Undefined behaviour that leaves no trace in events (the MaybeUninit plumbing implementing the protocol) is checked by traces, not proved; Miri is a possible complement.",
      trusted=BENCH_TRUST)
 
-prop("C02", ["DivanModel.Props.C02"], BENCH_LABS,
+prop("C02", ["DivanModel.Props.C02"], BENCH_LABS + [lab("sbench-p250", 500, 15000, timeout=900)],
      level_text="Theorems: with the calls removed the two timestamps of a sample are adjacent (only benchmarked calls are timed), generation/counting precede, snapshot and drops follow, for every size/shape/entry; the allocating events between tally clear and snapshot are exactly the calls (allocation window = timed window). The bench lab runs scripted allocations in generator, benchmarked function and destructors through the global AllocProfiler and compares the per-sample allocation figures in Stats (exact IEEE doubles) and the interleaving of clock reads with events.",
      level_note="Trusted: Lean kernel; bench lab. The fences of time/fence.rs and out-of-order execution cannot be expressed by an executable model: program order only.",
      trusted=BENCH_TRUST)
